@@ -170,7 +170,7 @@ func (x *c01Ctx) readRules(g *cGraph, ruleA, ruleB string, prefix func(cgRead) s
 			r.Violation(ruleB, cons, pos, "a single Read outside any loop: io.Reader may return fewer bytes than asked (or zero) without being at the end, so the result depends on how the source chunks its reads")
 			continue
 		}
-		bad := ""
+		bad, bad2 := "", ""
 		if s.nn.V != nil {
 			nnSet := map[CV]bool{g.res(s.nn): true}
 			for _, ex := range l.exits() {
@@ -181,7 +181,36 @@ func (x *c01Ctx) readRules(g *cGraph, ruleA, ruleB string, prefix func(cgRead) s
 				if cmp, ok := g.decode(c.Cond, c.Branch); ok && (g.carries(cmp.X, nnSet) || g.carries(cmp.Y, nnSet)) {
 					bad = x.p.Pos(instrPos(ex.From.last()))
 				}
+				// an exit on an error value: the error may only be the Read's own — not one manufactured because a
+				// single Read returned a particular count (a "no progress" / "too slow" guard)
+				if s.err.V != nil && bad == "" && bad2 == "" {
+					errSet := map[CV]bool{g.res(s.err): true}
+					if g.errTest(c.Cond, errSet) {
+						for _, ev := range g.errOperands(c.Cond) {
+							for _, lf := range g.choiceLeaves(ev, 0, map[CV]bool{}) {
+								if lf.Zero || g.isNil(lf.Val) || g.carries(lf.Val, errSet) || !g.nonNil(lf.Val, nil) {
+									continue
+								}
+								for _, dc := range lf.Conds {
+									if dc.At != s.n && !g.dominates(s.n, dc.At) {
+										continue
+									}
+									if !l.Body[dc.At] {
+										continue
+									}
+									if g.condOnRaw(dc.Cond, nnSet, 0) {
+										bad2 = g.pos(lf.Val)
+									}
+								}
+							}
+						}
+					}
+				}
 			}
+		}
+		if bad == "" && bad2 != "" {
+			r.Violation(ruleB, cons, pos, "the error that ends the read loop can be one manufactured (at "+bad2+") because a single Read returned a particular count (e.g. a 'no progress' guard counting zero-length reads): io.Reader may return (0, nil) any number of times — consecutively or spread over the stream — so a source that chunks its reads that way aborts a message that must round-trip")
+			continue
 		}
 		r.Check(bad == "", ruleB, cons, pos, "Read is retried in a loop; no exit tests the raw count",
 			"the read loop is left (at "+bad+") because a single Read returned a particular count: a short or zero-length read is not the end of the data")
